@@ -8,7 +8,7 @@
    keyForPrefetch as a function of the cache key (question, client group); the theorems hold for every
    such function, injective or not. *)
 From Mos Require Import Base.Prelude Cache.Netlist Router.Prefetch Router.PrefetchProofs
-  Router.PrefetchGroups Router.PrefetchGroupsProofs.
+  Router.PrefetchGroups Router.PrefetchGroupsProofs Router.PrefetchCost Router.PrefetchCostProofs.
 Local Open Scope Z_scope.
 
 (* ------------------------------------------------------------------ single flight *)
@@ -396,6 +396,73 @@ Proof.
 Qed.
 Print Assumptions C19_refresh_reread_refuted.
 
+(* ------------------------------------------------------------------ the limiter and the prefetch (round 6)
+
+   Router/PrefetchCost.v: what the resource limiter charges for a run of client queries (connection, query, hit = 1 /
+   miss = 3) and background refreshes; token buckets without refill, the global bucket in front of the client's.
+   "The hit is answered immediately from cache" and "a failed refresh leaves the old entry usable" include the budget
+   that lets in the client's next hit: a refresh must be invisible to it.
+
+   (1) The cost charged to a client is a function of ITS OWN requests only.  Two runs with the same requests in the same
+   order and ARBITRARY background refreshes in between — any number, started by anybody, at any point, with any result —
+   leave every bucket (and the global one) in the same state and give every request the same fate.  No assumption on
+   the budget. *)
+Theorem C19_cost_own_requests_only : forall burst st evs1 evs2,
+  filter pco_is_req evs1 = filter pco_is_req evs2 ->
+  fst (pco_run false burst st evs1) = fst (pco_run false burst st evs2) /\
+  filter (fun r => negb (pco_is_bg r)) (snd (pco_run false burst st evs1)) =
+  filter (fun r => negb (pco_is_bg r)) (snd (pco_run false burst st evs2)).
+Proof. exact pco_run_same_requests. Qed.
+Print Assumptions C19_cost_own_requests_only.
+
+(* (2) the amount: when the buckets can pay the own requests (pco_total ignores refreshes), every request is answered and
+   every bucket ends at exactly  burst - (connections it opened * 3 + its queries' cost + 1 per hit + 3 per miss) *)
+Theorem C19_cost_formula : forall burst gburst evs,
+  (forall b, pco_total b evs <= burst) ->
+  (forall g, gburst = Some g -> pco_gtotal evs <= g) ->
+  pco_all_answered (snd (pco_run false burst (pco_init gburst) evs)) /\
+  (forall b, pco_tok burst (fst (pco_run false burst (pco_init gburst) evs)) b = burst - pco_total b evs) /\
+  pco_g (fst (pco_run false burst (pco_init gburst) evs)) = option_map (fun g => g - pco_gtotal evs) gburst.
+Proof.
+  intros burst gburst evs Hb Hg.
+  destruct (pco_run_ample burst evs (pco_init gburst)) as [A [T G]]; auto.
+Qed.
+Print Assumptions C19_cost_formula.
+
+(* (3) a budget sized exactly for n hits of a client lets in and answers these n hits, whatever refreshes they start
+   and however these end (kind prefetchcost, mode budget: n hits inside the window against a failing upstream) *)
+Theorem C19_budget_for_own_hits : forall burst l peer client n evs,
+  filter pco_is_req evs = repeat (PcoReq l peer client PcoHit) n ->
+  (forall b, Z.of_nat n * pco_own b (PcoReq l peer client PcoHit) <= burst) ->
+  pco_all_answered (snd (pco_run false burst (pco_init None) evs)).
+Proof. exact pco_budget_for_hits. Qed.
+Print Assumptions C19_budget_for_own_hits.
+
+(* The variant that charges costFromUpstream inside forward() — the same for a miss, but forward() is also what the
+   background refresh calls — is REFUTED: client 1 over udp, bucket of 10 = five hits (1 + 1 each); every hit is
+   inside the window and starts a refresh that fails, so the next hit starts another: the third hit is REFUSED,
+   and the first hit with its refresh costs the client 5 tokens instead of 2. *)
+Definition ex_cost_evs : list pco_ev :=
+  flat_map (fun _ => [PcoReq PcoUdp (Some 1%N) (Some 1%N) PcoHit; PcoRefresh (Some 1%N)]) (seq 0 5).
+Theorem C19_cost_charge_in_forward_refuted :
+  exists burst evs,
+    (forall b, pco_total b evs <= burst) /\
+    pco_all_answered (snd (pco_run false burst (pco_init None) evs)) /\
+    ~ pco_all_answered (snd (pco_run true burst (pco_init None) evs)) /\
+    (* already the first hit + its refresh take 5 tokens where the client's own request costs 2 *)
+    pco_tok burst (fst (pco_run true burst (pco_init None) (firstn 2 evs))) 1 = burst - 5 /\
+    pco_total 1 (firstn 2 evs) = 2.
+Proof.
+  exists 10, ex_cost_evs. split; [|split; [|split]].
+  - intros b. destruct (N.eq_dec b 1) as [->|Nb]; [vm_compute; discriminate|].
+    assert (E : (1 =? b)%N = false) by (apply N.eqb_neq; congruence).
+    unfold ex_cost_evs, pco_total. cbn [flat_map seq app fold_right pco_own pco_is]. rewrite E. cbn. lia.
+  - vm_compute. repeat constructor.
+  - intros H. apply Forall_forall with (x := PcoRefused) in H; [discriminate H|]. vm_compute. tauto.
+  - vm_compute. split; reflexivity.
+Qed.
+Print Assumptions C19_cost_charge_in_forward_refuted.
+
 (* ------------------------------------------------------------------ non-vacuity *)
 Definition s_ns : Z := 1000000000.
 
@@ -499,3 +566,15 @@ Example C19_example_groups :
   pg_key ex_mk 1 ex_lan1 = pg_key ex_mk 1 ex_lan2 /\ pg_key ex_mk 1 ex_lan1 <> pg_key ex_mk 1 ex_guest /\
   pg_key ex_mk 1 ex_out = pg_key ex_mk 1 None.
 Proof. vm_compute. repeat split; try reflexivity; discriminate. Qed.
+
+(* the limiter (the scripted run of kind prefetchcost): client 7 asks through DoH (connection peer 9), client 9 over udp
+   and tcp; a miss, a hit, two hits inside the window whose refreshes run in the background, with a global bucket:
+   bucket 7 pays 2+3, 2+1, 2+1, 2+1 = 14; bucket 9 pays four connections (12) + its udp hit (2) + its tcp miss (3+2+3) = 22 *)
+Example C19_example_cost :
+  let evs := [PcoReq PcoHttp (Some 9%N) (Some 7%N) PcoMiss; PcoReq PcoHttp (Some 9%N) (Some 7%N) PcoHit;
+              PcoReq PcoHttp (Some 9%N) (Some 7%N) PcoHit; PcoRefresh (Some 7%N); PcoReq PcoUdp (Some 9%N) (Some 9%N) PcoHit;
+              PcoReq PcoHttp (Some 9%N) (Some 7%N) PcoHit; PcoRefresh (Some 7%N); PcoReq PcoTcp (Some 9%N) (Some 9%N) PcoMiss] in
+  let st := fst (pco_run false 1000 (pco_init (Some 5000)) evs) in
+  pco_tok 1000 st 7 = 1000 - 14 /\ pco_tok 1000 st 9 = 1000 - 22 /\ pco_tok 1000 st 8 = 1000 /\ pco_g st = Some (5000 - 36) /\
+  pco_total 7 evs = 14 /\ pco_total 9 evs = 22 /\ pco_gtotal evs = 36.
+Proof. vm_compute. repeat split; reflexivity. Qed.
